@@ -26,6 +26,9 @@ WITNESSES = [
               ["ndarray", "<f8", [3, 2], "F", 5, False], ["ndarray", "<i8", [1], "C", 7, False], ["npscalar", "<i8", 7]]],
     ["tuple", [["ndarray", "|u1", [4], "C", 2, False], ["ndarray", "|u1", [2, 2], "C", 2, False], ["ndarray", "|b1", [0], "C", 2, False], ["ndarray", "<f4", [0], "C", 2, False]]],
 ]
+# implementation-only (too large for a Coq literal): members of a few hundred kB that compress by a factor of several
+# hundred under every codec
+SINK_WITNESSES = [["list", [["zeros", "<f8", 40000], ["bytes", "00" * 50000], ["zeros", "|b1", 60000]]]]
 
 
 def defect_class(d):
@@ -135,7 +138,7 @@ def run(R, only=None):
     K.report_mismatches(R, "C12", specs, recs, bad)
     # ---- sink / compression independence, on the implementation directly
     m = 40 if R.tier == "quick" else 250
-    sspecs = only or (WITNESSES + [s for s, r in zip(specs[len(WITNESSES):], recs[len(WITNESSES):]) if r.get("dump", "").startswith("ok:")][:m])
+    sspecs = only or (WITNESSES + SINK_WITNESSES + [s for s, r in zip(specs[len(WITNESSES):], recs[len(WITNESSES):]) if r.get("dump", "").startswith("ok:")][:m])
     configs = CONFIGS_QUICK if R.tier == "quick" else CONFIGS_THOROUGH
     srecs = run_sinks(R, sspecs, configs)
     nvar = 0
